@@ -22,14 +22,18 @@ CHUNK = 20
 def corpus():
     p = os.path.join(C.VERIF, 'corpus', 'c10_scenes.json')
     if os.path.exists(p):
-        out = json.load(open(p))
-        for sc in out:
-            sc['cps'] = {int(k): [tuple(q) for q in v] for k, v in sc['cps'].items()}
-            sc['boxes'] = [tuple(b) for b in sc['boxes']]
-            sc['pins'] = [tuple(b) for b in sc['pins']]
-            sc['conns'] = [(c[0], tuple(c[1]), tuple(c[2])) for c in sc['conns']]
-        return out
+        return [norm_scene(sc) for sc in json.load(open(p))]
     return []
+
+
+def norm_scene(sc):
+    """a scene read back from JSON (corpus / replay file) in the generator's form"""
+    sc = dict(sc)
+    sc['cps'] = {int(k): [tuple(q) for q in v] for k, v in sc['cps'].items()}
+    sc['boxes'] = [tuple(b) for b in sc['boxes']]
+    sc['pins'] = [tuple(b) for b in sc['pins']]
+    sc['conns'] = [(c[0], tuple(c[1]), tuple(c[2])) for c in sc['conns']]
+    return sc
 
 
 def run_scenes(exe, drv, scenes):
@@ -98,6 +102,9 @@ def classify_scene(sc, r, sv):
                 fps.append('checkpoint_segment_without_checkpoints')
     if sv.get('pairs') and o3 == 0 and any(rel[3] for g in r['regions'] for rel in g['rel'].values()):
         fps.append('shared_path_flag_per_connector_pair')
+    elif sv.get('pairs') and all(L.sandwiched(r['regions'], int(a), int(b))
+                                 for a, b in (p.split('/') for p in sv['pairs'].split(',') if p)):
+        fps.append('movable_between_immovable_same_position')
     return fps
 
 
@@ -238,7 +245,7 @@ def replay(path):
     if 'scene' in j:
         exe = C.build_harness('c10_nudge', ['libavoid'], FLAVOR)
         drv = C.ocaml_build('c10', 'C10.v', 'c10_driver.ml', 'c10_model.ml')
-        x = run_scenes(exe, drv, [j['scene']])[0]
+        x = run_scenes(exe, drv, [norm_scene(j['scene'])])[0]
         if x.get('err'):
             print(x['err'])
             return 2
